@@ -50,7 +50,12 @@ func init() {
 
 // ---- reflection helpers ------------------------------------------------------------------------------------------------
 
-type prng struct{ s uint64 }
+// (dict: strings the system under test is known to use - ids, mode names, map keys - harvested by the caller; generated
+// strings come from it half of the time, the way a fuzzer uses a dictionary)
+type prng struct {
+	s    uint64
+	dict []string
+}
 
 func (p *prng) n(k int) int {
 	p.s = splitmix(p.s)
@@ -73,7 +78,20 @@ func fillMessage(m protoreflect.Message, p *prng, depth int) {
 		}
 		switch {
 		case fd.IsMap():
-			continue
+			mp := m.Mutable(fd).Map()
+			for k := p.n(3); k > 0; k-- {
+				key := scalarValue(fd.MapKey(), p).MapKey()
+				if fd.MapValue().Kind() == protoreflect.MessageKind {
+					if depth <= 0 {
+						continue
+					}
+					v := mp.NewValue()
+					fillMessage(v.Message(), p, depth-1)
+					mp.Set(key, v)
+				} else {
+					mp.Set(key, scalarValue(fd.MapValue(), p))
+				}
+			}
 		case fd.IsList():
 			if fd.Kind() == protoreflect.MessageKind && depth <= 0 {
 				continue
@@ -119,11 +137,62 @@ func scalarValue(fd protoreflect.FieldDescriptor, p *prng) protoreflect.Value {
 	case protoreflect.DoubleKind:
 		return protoreflect.ValueOfFloat64(float64(1 + p.n(50)))
 	case protoreflect.StringKind:
+		if len(p.dict) > 0 && p.n(2) == 0 {
+			return protoreflect.ValueOfString(p.dict[p.n(len(p.dict))])
+		}
 		return protoreflect.ValueOfString(fmt.Sprintf("s%d", p.n(50)))
 	case protoreflect.BytesKind:
 		return protoreflect.ValueOfBytes([]byte{byte(p.n(250)), 1})
 	}
 	return fd.Default()
+}
+
+// harvestStrings collects the strings (and string map keys) a message uses, for the generator's dictionary.
+func harvestStrings(m protoreflect.Message, out *[]string, depth int) {
+	if !m.IsValid() || depth < 0 || len(*out) > 40 {
+		return
+	}
+	add := func(s string) {
+		if s == "" || len(s) > 40 {
+			return
+		}
+		for _, x := range *out {
+			if x == s {
+				return
+			}
+		}
+		*out = append(*out, s)
+	}
+	m.Range(func(fd protoreflect.FieldDescriptor, v protoreflect.Value) bool {
+		switch {
+		case fd.IsMap():
+			v.Map().Range(func(k protoreflect.MapKey, mv protoreflect.Value) bool {
+				if fd.MapKey().Kind() == protoreflect.StringKind {
+					add(k.String())
+				}
+				if fd.MapValue().Kind() == protoreflect.StringKind {
+					add(mv.String())
+				} else if fd.MapValue().Kind() == protoreflect.MessageKind {
+					harvestStrings(mv.Message(), out, depth-1)
+				}
+				return true
+			})
+		case fd.IsList():
+			l := v.List()
+			for i := 0; i < l.Len() && i < 6; i++ {
+				if fd.Kind() == protoreflect.StringKind {
+					add(l.Get(i).String())
+				} else if fd.Kind() == protoreflect.MessageKind {
+					harvestStrings(l.Get(i).Message(), out, depth-1)
+				}
+			}
+		case fd.Kind() == protoreflect.StringKind:
+			add(v.String())
+		case fd.Kind() == protoreflect.MessageKind:
+			harvestStrings(v.Message(), out, depth-1)
+		}
+		return true
+	})
 }
 
 func setName(m proto.Message, n string) bool {
